@@ -32,6 +32,7 @@ from props import tagstore as TS
 
 ID = "C14"
 LEVEL = "model_checking"
+ISOLATE_SHARDS = True        # every shard runs in a forked child of a pristine worker (mc/core.py)
 RULE = ("Part A: BFS to closure over (tag store, connected?, pylogix type cache); from every state every call of the API "
         "alphabet (Read scalar/element/range/array needing >= 3 replies, multi-tag Read lists, Write scalar/element/range/"
         "array needing several Write Tag Fragmented requests, out-of-range index, unknown tag, Close + reconnect) judged "
@@ -1285,3 +1286,9 @@ def replay(case):
     if br.session is not None and br.session.alive and len(br.conns) == 2:
         msgs += [m for _, m in br.shutdown(("rd", ("sym", "a", None), 1))]
     return msgs
+
+
+def preload():
+    """import the code under test once in the (pristine) worker; shard children are forked from it"""
+    from mc import sim as _sim
+    _sim.mods()
